@@ -20,6 +20,7 @@ import stat as stat_mod
 import threading
 
 VROOT = "/evo_vroot"
+VFD_BASE = 1000000
 
 from mc.runner import HarnessError  # noqa: E402
 
@@ -98,6 +99,7 @@ class VRaw(io.RawIOBase):
         self._r = readable
         self._w = writable
         self._pos = len(inode.data) if append else 0
+        self._fd = None
         self.name = path
         self.mode = "rb+" if (readable and writable) else (
             "wb" if writable else "rb")
@@ -112,7 +114,13 @@ class VRaw(io.RawIOBase):
         return True
 
     def fileno(self):
-        raise OSError("virtual file has no descriptor")
+        # a fake descriptor, only understood by the substituted os.fsync
+        if self._fd is None:
+            # deterministic per virtual process (n-th descriptor asked for)
+            n = getattr(self._proc, "fd_counter", 0) + 1
+            self._proc.fd_counter = n
+            self._fd = VFD_BASE + n
+        return self._fd
 
     def isatty(self):
         return False
@@ -206,6 +214,8 @@ class Patcher(object):
         o["getpid"] = os.getpid
         o["getppid"] = os.getppid
         o["os_open"] = os.open
+        o["fsync"] = os.fsync
+        o["fdatasync"] = os.fdatasync
         o["home"] = pathlib.Path.__dict__["home"]
         o["listdir"] = os.listdir
         o["scandir"] = os.scandir
@@ -318,6 +328,18 @@ class Patcher(object):
                 return o["getppid"]()
             return 999  # all virtual processes are children of one parent
 
+        def v_fsync(fd):
+            proc = current()
+            if proc is None or not isinstance(fd, int) or fd < VFD_BASE:
+                return o["fsync"](fd)
+            if proc.dead:
+                return
+            # completed raw writes already persist in this crash model
+            # (process kill, no power loss): fsync is a no-op scheduling
+            # point; note that it does NOT flush Python's user-space buffer
+            proc.point(("fsync", fd - VFD_BASE))
+            proc.observe(("fsync", ))
+
         def v_home(cls):
             proc = current()
             if proc is None:
@@ -345,6 +367,8 @@ class Patcher(object):
         os.access = v_access
         os.getpid = v_getpid
         os.getppid = v_getppid
+        os.fsync = v_fsync
+        os.fdatasync = v_fsync
         pathlib.Path.home = classmethod(v_home)
         for name in ("listdir", "scandir", "rmdir", "makedirs", "os_open"):
             setattr(os, name.replace("os_", ""), unsupported(name))
@@ -364,6 +388,8 @@ class Patcher(object):
         os.getpid = o["getpid"]
         os.getppid = o["getppid"]
         os.open = o["os_open"]
+        os.fsync = o["fsync"]
+        os.fdatasync = o["fdatasync"]
         pathlib.Path.home = o["home"]
         for name in ("listdir", "scandir", "rmdir", "makedirs"):
             setattr(os, name, o[name])
